@@ -7,7 +7,7 @@
 From Coq Require Import ZArith NArith List Permutation.
 Import ListNotations.
 From Stam Require Import Base.Tac Model.Limit Model.Handles Spec.HandlesSpec Proofs.Limit Proofs.Handles.
-From Stam Require Import Model.Offset Model.Store Model.StoreObs Model.DataValue Model.QuerySem Spec.QuerySpec Proofs.QuerySem.
+From Stam Require Import Model.Offset Model.Store Model.StoreObs Model.DataValue Model.QuerySem Spec.QuerySpec Proofs.QuerySem Proofs.QueryMachine.
 
 Theorem C08_limit_is_slice : forall (X : Type) (bg en : Z) (l : list X),
   limit bg en l = slice_spec bg en l.
@@ -103,8 +103,8 @@ Proof. exact sem_subquery. Qed.
 Theorem C08_sem_subquery_rows : forall s e n rt cs lim o sq it r,
   In (it :: r) (sem s e (Q n rt cs lim o (Some sq))) <->
   In it (level s e rt cs lim)
-  /\ (In r (sem s ((n, it) :: e) sq)
-      \/ (r = [] /\ q_opt sq = true /\ sem s ((n, it) :: e) sq = [])).
+  /\ (In r (sem s (e ++ [(n, it)]) sq)
+      \/ (r = [] /\ q_opt sq = true /\ sem s (e ++ [(n, it)]) sq = [])).
 Proof. exact sem_subquery_rows. Qed.
 
 (* ADD and DELETE change the store as the direct calls on the selected rows do *)
@@ -139,6 +139,24 @@ Proof. exact route_data_variable. Qed.
 (** * Layer 3: the classes of queries on which the evaluator (as far as modelled: the dispatch
     tables, the routes through AnnotationSelectors, the source orders and the QueryIter state
     machine, [run_machine]) is known not to return [sem]; each with a witness on one store. *)
+(* The iteration core of the evaluator is proved, not only tested: the transcription of
+   QueryIter::next / init_all_states / init_state / next_state / estimate_stacksize (state stack,
+   done flags, query path) returns the rows of plain nested iteration over its levels whenever every
+   level that is reached opens without error and every OPTIONAL level that is reached has a
+   candidate ([fine]); for queries of any depth, stores of any size. *)
+Theorem C08_machine_rows : forall s q, fine s [] q ->
+  forall fuel, work s [] q < fuel -> iterate s q fuel (mkm [] 0) [] = Some (rows s [] q).
+Proof. intros s q H fuel Hf. exact (machine_rows s q H fuel Hf). Qed.
+
+(* hence it returns [sem] when moreover the levels deliver what the constraints mean and no OPTIONAL
+   sub-query comes back empty ([clean]: the complement of the classes below, stated on the
+   behaviour of the levels); [cleanb] decides it *)
+Theorem C08_machine_sem : forall s q, clean s [] q -> run_machine s q = Some (sem s [] q).
+Proof. exact machine_sem. Qed.
+
+Theorem C08_machine_sem_dec : forall s q, cleanb s [] q = true -> run_machine s q = Some (sem s [] q).
+Proof. exact machine_sem_dec. Qed.
+
 Definition Known_C08_delete_nosub (nosub : bool) : bool := nosub.
 Definition Known_C08_position (q : query) : bool := negb (all_levels_ok q).
 Definition Known_C08_indirect (s : store) (q : query) : bool := indirect_q q && has_higher_order s.
@@ -225,3 +243,11 @@ Example C08_sem_nonvacuous :
               (Some (Q 1 TData [CAnn (RVar 0) false; CVal (OpNot OpNull)] None false None)))
   = [[IAnn 1; IData 0 0]; [IAnn 2; IData 0 1]; [IAnn 2; IData 0 2]].
 Proof. vm_compute. reflexivity. Qed.
+
+(* non-vacuity of the machine theorem: a query with an OPTIONAL sub-query that is clean *)
+Example C08_machine_nonvacuous :
+  let q := Q 0 TAnn [CSet (RId 0) false] None false
+             (Some (Q 1 TData [CAnn (RVar 0) false] None true None)) in
+  cleanb W [] q = true
+  /\ run_machine W q = Some [[IAnn 1; IData 0 0]; [IAnn 2; IData 0 1]; [IAnn 2; IData 0 2]].
+Proof. vm_compute. split; reflexivity. Qed.
